@@ -859,7 +859,12 @@ func (p *sshFxpReadPacket) getDataSlice(alloc *allocator, orderID uint32, maxTxP
 	if alloc != nil {
 		// GetPage returns a slice with capacity = maxMsgLength this is enough to avoid new allocations in
 		// sshFxpDataPacket.MarshalBinary
-		return alloc.GetPage(orderID)[:dataLen]
+		page := alloc.GetPage(orderID)
+		if dataLen > uint32(len(page)) {
+			// maxTxPacket may have been raised beyond the page size
+			dataLen = uint32(len(page))
+		}
+		return page[:dataLen]
 	}
 
 	// allocate with extra space for the header
